@@ -189,6 +189,13 @@ def step (s : St) (line : String) : St × String :=
     let i : Cmds.CommitIn := ⟨entriesIn ix, (if sn == "none" then none else some (entriesIn sn)), opt br, anyB == "1",
       opt cl, opt cg, intOf unix, intOf off, unhex msg⟩
     (s, resOut (fun r => hexOut r.1) (Cmds.commitCmd sha1Fn i))
+  | ["cmd.cat-file", flag, content] =>
+    -- `goit cat-file -t|-p <id>` on the decompressed content of the object file named <id> (blobs and commits)
+    (s, match Obj.decode (unhex content) with
+        | some (k, d) =>
+          if flag == "-t" then "ok " ++ hexOut (k.str ++ [10])
+          else if k == .tree then "unsupported" else "ok " ++ hexOut (d ++ [10])
+        | none => "err")
   | ["cmd.config", f, k, v] =>
     -- `goit config`: the sections of the rewritten file as they load again
     (s, match Cmds.configCmd (if f == "none" then none else some (unhex f)) (unhex k) (unhex v) with
